@@ -145,12 +145,29 @@ def run_rac(cfg, tier, seed, budget):
     cmd = [sys.executable, os.path.join(ROOT, script), "--tier", tier, "--seed", str(seed), "--out", out]
     if budget:
         cmd += ["--budget", str(budget)]
+    def partial(reason):
+        # the harness did not finish: the failing inputs it had recorded up to then are kept (they are replayed like any other), the run is
+        # still flagged as incomplete
+        pp = out + ".partial"
+        if os.path.exists(pp):
+            try:
+                with open(pp) as fh:
+                    res = json.load(fh)
+                os.unlink(pp)
+                res["partial_reason"] = reason
+                return res, ""
+            except Exception:      # noqa
+                pass
+        return None, reason
+    for stale_file in (out, out + ".partial"):
+        if os.path.exists(stale_file):
+            os.unlink(stale_file)
     try:
         p = subprocess.run(cmd, env=env, capture_output=True, text=True, timeout=max(600, (budget or 0) * 3))
     except subprocess.TimeoutExpired:
-        return None, "RAC timed out"
+        return partial("RAC timed out")
     if p.returncode != 0 or not os.path.exists(out):
-        return None, f"RAC harness crashed (exit {p.returncode}):\n{p.stdout[-1500:]}\n{p.stderr[-3000:]}"
+        return partial(f"RAC harness crashed (exit {p.returncode}):\n{p.stdout[-1500:]}\n{p.stderr[-3000:]}")
     with open(out) as fh:
         res = json.load(fh)
     os.unlink(out)
@@ -251,6 +268,8 @@ def main(argv=None):
         if racerr:
             broken.append(racerr)
         elif rac is not None:
+            if rac.get("partial_reason"):
+                broken.append(rac["partial_reason"] + " -- failing inputs recorded before that are reported")
             need = getattr(cfg, "RAC_MIN", {}).get(tier, 1)
             if rac.get("empty_sections") and not rac["failures"]:
                 broken.append(f"run-time contracts: section(s) {rac['empty_sections']} evaluated nothing although opened with time to spare")
@@ -391,9 +410,9 @@ def main(argv=None):
     if broken:
         for b in broken:
             print("CHECKER-BROKEN:", b)
-        if not (violations and (refuted or failed)):
+        if not violations:
             return 3
-        # failed obligations stand on their own even when the run-time part could not be completed
+        # failed obligations, and failing inputs replayed on the real code, stand on their own even when the run could not be completed
     if violations:
         for path, what, suffix in violations[:3]:
             print(f"# {what[:400]}")
